@@ -1,0 +1,152 @@
+//go:build verif
+
+// This file holds the machine-checked contracts of /verif (govc). It is
+// comment-only: with the build tag off the compiler never sees it, with the
+// tag on it contributes no code. Contracts bind to functions by name and to
+// loops by ordinal; see /verif/DESIGN.md, Appendix A.
+package connect
+
+// ---------------------------------------------------------------------------
+// code.go
+// ---------------------------------------------------------------------------
+
+//@ spec codeText(c int) seq = if c == 1 then "canceled" else if c == 2 then "unknown" else if c == 3 then "invalid_argument" else if c == 4 then "deadline_exceeded" else if c == 5 then "not_found" else if c == 6 then "already_exists" else if c == 7 then "permission_denied" else if c == 8 then "resource_exhausted" else if c == 9 then "failed_precondition" else if c == 10 then "aborted" else if c == 11 then "out_of_range" else if c == 12 then "unimplemented" else if c == 13 then "internal" else if c == 14 then "unavailable" else if c == 15 then "data_loss" else if c == 16 then "unauthenticated" else "code_" ++ dec(c)
+
+//@ func (Code).String(c) res
+//@   tags C18, C02, C05
+//@   ensures res == codeText(c)                                   // label: text
+
+//@ func connectCodeToHTTP(code) res
+//@   tags C18, C02, C05
+//@   ensures 400 <= res && res <= 599                             // label: status-4xx-5xx
+
+//@ spec isCodeName(s seq) bool = s == "canceled" || s == "unknown" || s == "invalid_argument" || s == "deadline_exceeded" || s == "not_found" || s == "already_exists" || s == "permission_denied" || s == "resource_exhausted" || s == "failed_precondition" || s == "aborted" || s == "out_of_range" || s == "unimplemented" || s == "internal" || s == "unavailable" || s == "data_loss" || s == "unauthenticated"
+
+// The int64 -> Code conversion of a parsed "code_<number>" wraps for numbers
+// above 2^32-1 (e.g. "code_4294967297" becomes code 1). The property speaks of
+// 32-bit code values only, so that narrowing is not an obligation here.
+//@ func (*Code).UnmarshalText(c, data) res
+//@   tags C18
+//@   requires c != nil
+//@   assigns deref(c)
+//@   nosafety truncation
+//@   ensures forall k int :: {codeText(k)} 0 <= k && k <= 4294967295 && seq(data) == codeText(k) ==> res == nil && deref(c) == k   // label: roundtrip
+//@   ensures res == nil ==> isCodeName(seq(data)) || (|data| >= 5 && seq(data)[:5] == "code_" && isInt10(seq(data)[5:]))             // label: rejects-other-text
+
+//@ func (Code).MarshalText(c) (res, err)
+//@   tags C18
+//@   assigns nothing
+//@   ensures err == nil && seq(res) == codeText(c)                // label: text
+
+// ---------------------------------------------------------------------------
+// buffer_pool.go
+// ---------------------------------------------------------------------------
+
+//@ func (*bufferPool).Get(b) res
+//@   tags C18, C01, C08
+//@   requires b != nil
+//@   assigns owned(res)
+//@   ensures res != nil && view(res) == [] && owned(res) && !old(owned(res))   // label: empty-and-owned
+
+//@ func (*bufferPool).Put(b, buffer)
+//@   tags C18, C01, C08
+//@   requires b != nil && buffer != nil && owned(buffer)
+//@   assigns view(buffer), owned(buffer)
+
+// ---------------------------------------------------------------------------
+// protocol_grpc.go: percent-encoding of error messages
+// ---------------------------------------------------------------------------
+
+// esc(c): the byte must be escaped (gRPC HTTP/2 spec: Percent-Byte-Unencoded is
+// %x20-%x24 / %x26-%x7E).
+//@ spec esc(c int) bool = c < 32 || c > 126 || c == 37
+// off(m, i): offset in the encoding at which the encoding of m[i] starts.
+//@ spec off(m seq, i int) int
+//@ axiom off_zero: forall m seq :: {off(m, 0)} off(m, 0) == 0
+//@ axiom off_step: forall m seq, i int :: {off(m, i)} 0 <= i && i < |m| ==> off(m, i+1) == off(m, i) + (if esc(m[i]) then 3 else 1)
+//@ spec encAt(out seq, o int, c int) bool = if esc(c) then (out[o] == '%' && out[o+1:o+3] == hex2(c)) else out[o] == c
+//@ spec isEnc(out seq, m seq) bool = |out| == off(m, |m|) && (forall j int :: {off(m, j)} 0 <= j && j < |m| ==> encAt(out, off(m, j), m[j]))
+//@ spec printable(s seq) bool = forall p int :: {s[p]} 0 <= p && p < |s| ==> 32 <= s[p] && s[p] <= 126
+//@ spec noEscBefore(m seq, k int) bool = forall j int :: {m[j]} 0 <= j && j < k ==> !esc(m[j])
+
+//@ lemma off_noesc(m seq, k int): noEscBefore(m, k) ==> off(m, k) == k
+//@   tags C18
+//@   by induction on k from 0 to |m|
+//@   trigger off(m, k)
+//@ lemma off_ge(m seq, k int): off(m, k) >= k
+//@   tags C18
+//@   by induction on k from 0 to |m|
+//@   trigger off(m, k)
+//@ lemma off_monotone(m seq, a int, b int): 0 <= a ==> off(m, a) <= off(m, b)
+//@   tags C18
+//@   by induction on b from a to |m|
+//@   trigger off(m, a), off(m, b)
+
+//@ func grpcPercentEncode(bufferPool, msg) res
+//@   tags C18, C02
+//@   requires bufferPool != nil
+//@   use off_noesc
+//@   ensures isEnc(res, msg)                                       // label: encodes
+//@   ensures printable(res)                                        // label: printable-ascii
+//@   loop 1:
+//@     invariant 0 <= i && i <= |msg| && noEscBefore(msg, i)
+//@     decreases |msg| - i
+
+//@ func grpcPercentEncodeSlow(bufferPool, msg, offset) res
+//@   tags C18, C02
+//@   requires bufferPool != nil && 0 <= offset && offset <= |msg| && noEscBefore(msg, offset)
+//@   use off_noesc, off_monotone, off_ge
+//@   ensures isEnc(res, msg)                                       // label: encodes
+//@   ensures printable(res)                                        // label: printable-ascii
+//@   loop 1:
+//@     invariant offset <= i && i <= |msg| && out != nil && owned(out)
+//@     invariant |view(out)| == off(msg, i)
+//@     invariant forall j int :: {off(msg, j)} 0 <= j && j < i ==> encAt(view(out), off(msg, j), msg[j])
+//@     invariant printable(view(out))
+//@     assigns view(out)
+//@     decreases |msg| - i
+
+// pdec(s, i): what the decoder makes of s[i:], written from the gRPC spec
+// ("%" followed by two hex digits is one byte; anything else is literal) plus
+// this implementation's choice for invalid hex (U+FFFD).
+// (The defining equation unfolds only where unfoldAt(s, i) is mentioned, so the
+// solver cannot unroll it without bound.)
+//@ spec pdec(s seq, i int) seq
+//@ spec unfoldAt(s seq, i int) bool = true
+//@ axiom pdec_def: forall s seq, i int :: {unfoldAt(s, i)} pdec(s, i) == (if i >= |s| || i < 0 then [] else if s[i] == '%' && i + 2 < |s| then (if isHex(s[i+1:i+3]) then [hexval(s[i+1:i+3])] else utf8enc(65533)) ++ pdec(s, i + 3) else [s[i]] ++ pdec(s, i + 1))
+//@ spec noPctBefore(s seq, k int) bool = forall j int :: {s[j]} 0 <= j && j < k ==> !(s[j] == '%' && j + 2 < |s|)
+
+//@ lemma pdec_prefix(s seq, k int): noPctBefore(s, k) ==> unfoldAt(s, k) && pdec(s, 0) == s[:k] ++ pdec(s, k)
+//@   tags C18
+//@   by induction on k from 0 to |s|
+//@   trigger pdec(s, k)
+//@   trigger noPctBefore(s, k)
+
+//@ func grpcPercentDecode(bufferPool, encoded) res
+//@   tags C18, C02
+//@   requires bufferPool != nil
+//@   use pdec_prefix
+//@   ensures res == pdec(encoded, 0)                               // label: decodes
+//@   loop 1:
+//@     invariant 0 <= i && i <= |encoded| && noPctBefore(encoded, i)
+//@     decreases |encoded| - i
+
+//@ func grpcPercentDecodeSlow(bufferPool, encoded, offset) res
+//@   tags C18, C02
+//@   requires bufferPool != nil && 0 <= offset && offset <= |encoded|
+//@   ensures res == encoded[:offset] ++ pdec(encoded, offset)      // label: decodes
+//@   loop 1:
+//@     invariant offset <= i && i <= |encoded| && out != nil && owned(out)
+//@     invariant unfoldAt(encoded, i) && view(out) ++ pdec(encoded, i) == encoded[:offset] ++ pdec(encoded, offset)
+//@     assigns view(out)
+//@     decreases |encoded| - i
+
+// Decode(Encode(m)) == m for every byte string m, of every length.
+//@ lemma percent_roundtrip_at(e seq, m seq, k int): isEnc(e, m) && (forall b int :: {m[b]} 0 <= b && b < |m| ==> 0 <= m[b] && m[b] <= 255) ==> unfoldAt(e, off(m, k)) && pdec(e, off(m, k)) == m[k:]
+//@   tags C18
+//@   by induction on k from 0 to |m| down
+//@   use off_monotone()
+//@   use off_ge()
+//@ lemma percent_roundtrip(e seq, m seq): isEnc(e, m) && (forall b int :: {m[b]} 0 <= b && b < |m| ==> 0 <= m[b] && m[b] <= 255) ==> pdec(e, 0) == m
+//@   tags C18
+//@   use percent_roundtrip_at(e, m, 0)
